@@ -80,7 +80,13 @@ func (r *rec) roundtrip(name, cls string, val reflect.Value, tag string, violate
 	if err == nil && pn == "" {
 		out := reflect.New(val.Type())
 		var derr error
-		pd := ev.Catch(func() { derr = aper.UnmarshalWithParams(b, out.Interface(), tag) })
+		// the decoder works on a buffer of its caller (the emulator reads every message into one receive buffer): once the call has
+		// returned the buffer is overwritten, and the decoded value must not change with it
+		in := append([]byte{}, b...)
+		pd := ev.Catch(func() { derr = aper.UnmarshalWithParams(in, out.Interface(), tag) })
+		for i := range in {
+			in[i] = 0x55
+		}
 		dec = ev.M{"done": true, "err": derr != nil || pd != "", "panic": pd != ""}
 		if derr == nil && pd == "" {
 			dec["tree"] = te.Export(out.Elem(), p)
@@ -154,7 +160,11 @@ func pduCases(r *rec, g *te.Gen, perType int, badEvery int, rot int) {
 				if err == nil && pn == "" {
 					var out *ngapType.NGAPPDU
 					var derr error
-					pd := ev.Catch(func() { out, derr = ngap.Decoder(b) })
+					in := append([]byte{}, b...)
+					pd := ev.Catch(func() { out, derr = ngap.Decoder(in) })
+					for i := range in {
+						in[i] = 0x55
+					}
 					dec = ev.M{"done": true, "err": derr != nil || pd != "", "panic": pd != ""}
 					if derr == nil && pd == "" && out != nil {
 						dec["tree"] = te.Export(reflect.ValueOf(out).Elem(), te.Parse(pduTag))
